@@ -1,6 +1,199 @@
 --------------------------- MODULE EnumLoaderRepo ---------------------------
-(* Stage 1 of the S->I runs: TLC evaluates the scenario family selected by   *)
-(* IOEnv.VT_CFG and writes it to IOEnv.VT_OUT as a JSON list.                *)
-EXTENDS MC_LoaderRepo, SequencesExt
-ASSUME JsonSerialize(IOEnv.VT_OUT, SetToSeq(MCScenarios))
+(* Stage 1 of the S->I pass: the scenario families of LoaderRepo.  TLC         *)
+(* evaluates the family selected by the JSON file IOEnv.VT_CFG                 *)
+(*   family "C17"|"C18"|"C27"|"C28", size "quick"|"thorough",                  *)
+(*   kinds [provider kinds], grepo [booleans]                                  *)
+(* and writes it to IOEnv.VT_OUT as a JSON list of scenario records.           *)
+EXTENDS LoaderRepo, IOUtils, SequencesExt
+
+Cfg == JsonDeserialize(IOEnv.VT_CFG)
+Quick == Cfg.size = "quick"
+MCKinds == Range(Cfg.kinds)
+MCGrepo == Range(Cfg.grepo)
+
+Ord     == <<"a", "b", "c", "d", "z">>
+NameOrd == <<"ua", "ub", "uc", "ud", "uz", "s", "k">>
+OrdSeq(S) == SelectSeq(Ord, LAMBDA x : x \in S)
+U(f) == CASE f = "a" -> "ua" [] f = "b" -> "ub" [] f = "c" -> "uc" [] f = "d" -> "ud" [] OTHER -> "uz"
+FilesN(n) == SubSeq(Ord, 1, n)
+GlobKind(k) == k \in {"plain_glob", "fqn_glob"}
+
+NoFault == [kind |-> "none", file |-> "-"]
+Load(f, how, given) == [op |-> "load", file |-> f, how |-> how, given |-> given]
+RepairOp == [op |-> "repair", file |-> "-", how |-> "-", given |-> <<>>]
+
+\* files a model of f loads directly
+Direct(f, imports, glob, kind) ==
+  IF GlobKind(kind) THEN Range(glob)
+  ELSE UNION {IF s = "*" THEN Range(glob) ELSE {s} : s \in Range(imports[f])}
+
+RECURSIVE ReachN(_, _, _, _, _)
+ReachN(S, imports, glob, kind, k) ==
+  IF k = 0 THEN S
+  ELSE ReachN(S \cup UNION {Direct(f, imports, glob, kind) : f \in S}, imports, glob, kind, k - 1)
+Reach(f, imports, glob, kind) == ReachN({f}, imports, glob, kind, 4)
+
+\* name variants: which files also define the shared name "s", builtin model on/off
+Shared(v, F) == IF v = 0 THEN {} ELSE IF v = 1 THEN (IF "b" \in F THEN {"b"} ELSE {"a"}) ELSE F \ {"z"}
+BuiltinOf(v) == IF v = 0 THEN <<>> ELSE <<"s", "ub", "k">>
+
+\* a scenario whose references are all names visible by the documented lookup
+Mk(files, imports, glob, v, kind, grepo, declared, flt, session, pad, ind) ==
+  LET F    == Range(files)
+      defs == [f \in F |-> <<U(f)>> \o (IF f \in Shared(v, F) THEN <<"s">> ELSE <<>>)]
+      bi   == BuiltinOf(v)
+      vis(f) == Range(defs[f]) \cup UNION {Range(defs[g]) : g \in Direct(f, imports, glob, kind)}
+                  \cup Range(bi)
+      refs == [f \in F |-> SelectSeq(NameOrd, LAMBDA n : n \in vis(f))]
+  IN [files |-> files, imports |-> imports, glob |-> glob, defs |-> defs, refs |-> refs,
+      pad |-> pad, ind |-> ind, kind |-> kind, grepo |-> grepo, builtin |-> bi,
+      declared |-> declared, fault |-> flt, session |-> session]
+
+Const(F, v) == [f \in F |-> v]
+ImpChoices(F, star) == {OrdSeq(S) : S \in SUBSET F} \cup (IF star THEN {<<"*">>} ELSE {})
+StarOk(kind) == kind \in {"plain_uri", "fqn_uri", "rrel"}
+
+\* import graphs over the files F (main "a")
+Graphs(F, kind, full) ==
+  IF GlobKind(kind) THEN {Const(F, <<>>)}
+  ELSE IF full THEN [F -> ImpChoices(F, StarOk(kind))]
+  ELSE {g \in [F -> ImpChoices(F, FALSE)] : \A f \in F \ {"a"} : f \notin Range(g[f])}
+
+Globs(files, kind) ==
+  IF GlobKind(kind) /\ Len(files) > 1 THEN {files, Tail(files)} ELSE {files}
+
+----------------------------------------------------------------------------
+\* C17: every import graph, no fault; repeated and pre-cached loads
+C17Sessions(grepo, n) ==
+  LET b == IF n > 1 THEN "b" ELSE "a" IN
+  IF grepo THEN {<<Load("a", "file", <<>>), Load("a", "file", <<>>), Load(b, "file", <<>>)>>,
+                 <<Load(b, "file", <<>>), Load("a", "strfile", <<>>)>>}
+  ELSE {<<Load("a", "file", <<>>), Load("a", "strfile", <<>>)>>}
+
+C17N(n, full, vs) ==
+  LET files == FilesN(n)  F == Range(files) IN
+  UNION { { Mk(files, g, gl, v, k, gr, <<>>, NoFault, s, Const(F, 0), Const(F, 0)) :
+              v \in vs, g \in Graphs(F, k, full), gl \in Globs(files, k), s \in C17Sessions(gr, n) }
+          : k \in MCKinds, gr \in MCGrepo }
+
+FamC17(dummy) ==
+  IF Quick THEN C17N(1, TRUE, {0, 1, 2}) \cup C17N(2, TRUE, {0, 1, 2}) \cup C17N(3, FALSE, {1})
+  ELSE C17N(1, TRUE, {0, 1, 2}) \cup C17N(2, TRUE, {0, 1, 2}) \cup C17N(3, TRUE, {0, 1, 2})
+
+----------------------------------------------------------------------------
+\* C18: which file fails in which phase, pre-cached files, repaired reload
+Shapes3 == { [a |-> <<"b">>, b |-> <<"c">>, c |-> <<>>],
+             [a |-> <<"b", "c">>, b |-> <<"c">>, c |-> <<>>],
+             [a |-> <<"b">>, b |-> <<"c">>, c |-> <<"a">>],
+             [a |-> <<"b", "c">>, b |-> <<>>, c |-> <<>>],
+             [a |-> <<"c", "b">>, b |-> <<"a", "c">>, c |-> <<"b">>] }
+
+C18Graphs(n, kind) ==
+  LET F == Range(FilesN(n)) IN
+  IF GlobKind(kind) THEN {Const(F, <<>>)}
+  ELSE IF n = 3 /\ Quick THEN Shapes3
+  ELSE Graphs(F, kind, n < 3)
+
+C18One(n, k, gr, g0) ==
+  LET files == FilesN(n)  F == Range(files)  filesz == Append(files, "z")  Fz == F \cup {"z"}
+      g   == g0 @@ ("z" :> <<>>)
+      R   == Reach("a", g, files, k)
+      pres(ff) == IF gr THEN {"-", "z"} \cup {p \in R \ {"a"} : ff \notin Reach(p, g, files, k)}
+                  ELSE {"-"}
+  IN UNION { { Mk(filesz, g, files, 1, k, gr, <<>>, [kind |-> ph, file |-> ff],
+                  (IF p = "-" THEN <<>> ELSE <<Load(p, "file", <<>>)>>)
+                    \o <<Load("a", "file", <<>>), RepairOp, Load("a", "file", <<>>)>>
+                    \o (IF gr THEN <<Load("a", "file", <<>>)>> ELSE <<>>)
+                    \o (IF p = "-" THEN <<>> ELSE <<Load(p, "file", <<>>)>>),
+                  Const(Fz, 0), Const(Fz, 0)) :
+                 ph \in {"syntax", "unknown", "objproc", "modelproc"}, p \in pres(ff) }
+             : ff \in R }
+
+C18N(n) ==
+  UNION { UNION { C18One(n, k, gr, g0) : g0 \in C18Graphs(n, k) } : k \in MCKinds, gr \in MCGrepo }
+
+FamC18(dummy) == C18N(1) \cup C18N(2) \cup C18N(3)
+
+----------------------------------------------------------------------------
+\* C27: declared x given parameters, string and file loads, every import path
+Givens == {<<>>, <<"p">>, <<"q">>, <<"p", "q">>, <<"zzz">>, <<"p", "zzz">>, <<"project_root">>,
+           <<"p", "project_root">>}
+Declareds == {<<>>, <<"p">>, <<"p", "q">>}
+
+C27Graphs(kind) ==
+  IF GlobKind(kind) THEN {<<1, Const({"a"}, <<>>)>>, <<2, Const({"a", "b"}, <<>>)>>,
+                          <<3, Const({"a", "b", "c"}, <<>>)>>}
+  ELSE {<<1, [a |-> <<>>]>>, <<1, [a |-> <<"a">>]>>,
+        <<2, [a |-> <<"b">>, b |-> <<>>]>>, <<2, [a |-> <<"b">>, b |-> <<"a">>]>>,
+        <<3, [a |-> <<"b">>, b |-> <<"c">>, c |-> <<>>]>>,
+        <<3, [a |-> <<"b", "c">>, b |-> <<"c">>, c |-> <<"a">>]>>}
+     \cup (IF Quick THEN {} ELSE {<<2, g>> : g \in Graphs({"a", "b"}, kind, TRUE)})
+
+C27One(k, gr, ng) ==
+  LET n == ng[1]  g == ng[2]  files == FilesN(n)  F == Range(files) IN
+  { Mk(files, g, files, 1, k, gr, d, NoFault,
+       <<Load("a", how, gv)>> \o (IF gr THEN <<Load("a", "file", <<>>)>> ELSE <<>>),
+       Const(F, 0), Const(F, 0)) :
+      d \in Declareds, gv \in Givens,
+      how \in {"file", "strfile"} \cup (IF g["a"] = <<>> /\ ~GlobKind(k) THEN {"str"} ELSE {}) }
+
+FamC27(dummy) ==
+  UNION { UNION { C27One(k, gr, ng) : ng \in C27Graphs(k) } : k \in MCKinds, gr \in MCGrepo }
+
+----------------------------------------------------------------------------
+\* C28: one offending text per scenario: kind x file of a chain a -> b -> c x layout
+Layouts == IF Quick THEN { <<0, 0, 1, 2>>, <<2, 1, 0, 0>>, <<1, 3, 2, 1>> }
+           ELSE { <<pa, ia, po, io>> : pa \in {0, 2}, ia \in {0, 1, 3}, po \in {0, 1, 2}, io \in {0, 2} }
+
+ChainImports(n, kind) ==
+  IF GlobKind(kind) THEN Const(Range(FilesN(n)), <<>>)
+  ELSE [f \in Range(FilesN(n)) |-> IF f = "a" /\ n > 1 THEN <<"b">> ELSE IF f = "b" /\ n > 2 THEN <<"c">> ELSE <<>>]
+Imported(f, n) == IF f = "a" /\ n > 1 THEN {"b"} ELSE IF f = "b" /\ n > 2 THEN {"c"} ELSE {}
+Importer(f) == IF f = "b" THEN "a" ELSE IF f = "c" THEN "b" ELSE "-"
+
+\* references: own name and the imported file's name; for a duplicate in g referenced from r
+\* only r mentions U(g)
+C28Refs(n, flt) ==
+  [f \in Range(FilesN(n)) |->
+     LET ownOk == ~(flt.kind = "notunique" /\ flt.file = f /\ flt.ref # f)
+         impOk(h) == ~(flt.kind = "notunique" /\ flt.file = h /\ flt.ref # f)
+     IN (IF ownOk THEN <<U(f)>> ELSE <<>>)
+        \o SelectSeq(<<"ub", "uc">>, LAMBDA u : \E h \in Imported(f, n) : U(h) = u /\ impOk(h))]
+
+C28Faults(n, kind) ==
+  LET F == Range(FilesN(n)) IN
+     {[kind |-> ph, file |-> f, ref |-> "-"] : ph \in {"syntax", "unknown"}, f \in F}
+  \cup (IF kind # "rrel" THEN {[kind |-> "postponed", file |-> f, ref |-> "-"] : f \in F} ELSE {})
+  \cup (IF kind \in {"plain_uri", "plain_search", "plain_glob"}
+        THEN {[kind |-> "notunique", file |-> f, ref |-> r] : f \in F, r \in F}
+        ELSE {})
+
+FamC28(dummy) ==
+  UNION { LET files == FilesN(n)  F == Range(files) IN
+          { [files |-> files, imports |-> ChainImports(n, k), glob |-> files,
+             defs |-> [f \in F |-> <<U(f)>>], refs |-> C28Refs(n, flt),
+             pad |-> [f \in F |-> IF f = "a" THEN ly[1] ELSE ly[3]],
+             ind |-> [f \in F |-> IF f = "a" THEN ly[2] ELSE ly[4]],
+             kind |-> k, grepo |-> gr, builtin |-> <<>>, declared |-> <<>>,
+             fault |-> [kind |-> flt.kind, file |-> flt.file],
+             session |-> <<Load("a", how, <<>>)>>] :
+              flt \in {x \in C28Faults(n, k) :
+                         x.kind # "notunique" \/ x.ref = x.file \/ x.ref = Importer(x.file)},
+              ly \in Layouts,
+              how \in {"file", "strfile"} \cup (IF n = 1 /\ ~GlobKind(k) THEN {"str"} ELSE {}) }
+          : k \in MCKinds, gr \in MCGrepo, n \in {1, 2, 3} }
+
+----------------------------------------------------------------------------
+\* (operators with a parameter: TLC evaluates parameterless constant definitions at start-up)
+Family(name) ==
+  CASE name = "C17" -> FamC17(0)
+    [] name = "C18" -> FamC18(0)
+    [] name = "C27" -> FamC27(0)
+    [] name = "C28" -> FamC28(0)
+
+
+ASSUME JsonSerialize(IOEnv.VT_OUT, SetToSeq(Family(Cfg.family)))
+
+NoScenarios == <<>>
+NoDevs == {}
 =============================================================================
